@@ -134,6 +134,11 @@ class BundleInstance:
             desc=self.desc,
         )
 
+    def __deepcopy__(self, _memo) -> "BundleInstance":
+        """Bundle Instance "deep" copies"""
+        # The same as shallow ones: the `Bundle` definition `of` is shared between instances, not copied.
+        return self.__copy__()
+
     def __rmul__(self, num: int) -> List["Self"]:
         """# Right multiplication. Creates `num` copies of ourselves."""
         if not isinstance(num, int):
